@@ -690,6 +690,13 @@ def pair_case(draw):
         a = [draw(st.sampled_from(("Sum", "Product", "Min"))),
              [a, ["Const", draw(st.sampled_from(("int", "float", "bool"))),
                   draw(st.sampled_from((0, 1)))]]]
+    if c == 0 and draw(st.booleans()):
+        # the keyword mapping written in the other order (reversed insertion order, or
+        # handed over as a plain dict): an equal node
+        node = list(a)
+        node[3] = list(reversed(node[3]))
+        node[0] = draw(st.sampled_from(("CallWithKwargs", "CallWithKwargsDict")))
+        return {"a": a, "b": node, "how": "kwreorder"}
     b, how = draw(derive(a))
     return {"a": a, "b": b, "how": how}
 
